@@ -19,7 +19,10 @@ def run(ck):
         eng = ck.engine(unwind=14); install_collections(eng); install_dynkin(eng)
         st = eng.new_state()
         body = c10.make_body(eng, True, True, 1, MapOracle('tbl'))
-        cons_cell = eng.tmp_ref(st, 0, Some(Opaque('limits')) if has_limits else NONE())
+        # the limits are a real Constraints value (symbolic fields) whose compliant() is an oracle verdict: code that reads the fields instead of asking compliant() runs, and disagrees
+        limits = Agg([Agg([F(z3.Real(f'lim_from{i}')) for i in range(6)]), Agg([F(z3.Real(f'lim_to{i}')) for i in range(6)]), Agg([F(z3.Real(f'lim_c{i}')) for i in range(6)]),
+                      Agg([F(z3.Real(f'lim_tol{i}')) for i in range(6)]), F(z3.Real('lim_w'))], 'constraints::Constraints')
+        cons_cell = eng.tmp_ref(st, 0, Some(limits) if has_limits else NONE())
         robot = DynKin('robot', cons_ref=cons_cell)
         init = [z3.Real(f'init{i}') for i in range(6)]; frm = [z3.Real(f'from{i}') for i in range(6)]; to = [z3.Real(f'to{i}') for i in range(6)]
         comp_calls, pass_calls = [], []
